@@ -9,6 +9,7 @@
       instantiates this for whole runs of `setup` on a database and on any permutation of it (different randomness
       allowed).
   (b) PiPtr and Pi2Lev: the occupied array slots are exactly a tail of the recorded `random.sample` (`placement_is_sample`).
+      SSE-1: a keyword's nodes sit at ψ_K1 of a counter segment determined by list lengths (`SSE1.placement_is_prp_image`).
       Placement in arrays (PiPtr, Pi2Lev: the recorded `random.sample`; SSE1: ψ_K1 on the node counter; DP17: the chosen
       bucket and the in-bucket shuffle) is modelled — the correspondence replays the recorded choices and must reproduce
       every array cell — but that two setups choose differently is a statement about `random` / the PRP, outside any
@@ -21,6 +22,7 @@ import SSEPyVerif.Model.Schemes.Levels
 import SSEPyVerif.Model.Schemes.Pi2Lev
 import SSEPyVerif.Proofs.Schemes.PiPtrPlace
 import SSEPyVerif.Proofs.Schemes.Pi2LevPlace
+import SSEPyVerif.Proofs.Schemes.SSE1Place
 namespace SSEPy.C06
 open SSEPy.Sch
 
@@ -134,6 +136,25 @@ theorem Pi2Lev.placement_is_sample (cfg : Pi2LevCfg) (lv : Leaves) (K : Bytes) (
     (h : Pi2Lev.setup cfg lv K db t = .ok (edb, t')) (sample : List Nat) (t0 : Tape) (hs : takeNats t = .ok (sample, t0)) :
     ∃ n, n ≤ sample.length ∧ ∀ i, PiPtr.Occupied edb.A i ↔ i ∈ sample.drop (sample.length - n) :=
   Pi2Lev.setup_slots cfg lv K db t t' edb h sample t0 hs
+
+/-- SSE-1: the nodes of the keyword processed after the keywords `pre` hang, as a linked list, at the array addresses
+    ψ_K1(1 + n), ψ_K1(2 + n), … with n = the number of postings of `pre` (`ListAt … (1 + total pre) …`: node j is the cell at
+    address ψ_K1(1 + n + j), decrypts under the chain key to `id_j ‖ next key ‖ next address`).  ψ is the keyed bit PRP on
+    `log2 s`-bit counters: placement is the image under the KEY of a counter segment that depends on the database only through
+    list lengths — a fresh key moves every node, keyword bytes and identifier bytes do not enter.  That ψ_K1 is injective
+    and length-preserving is not assumed but derived from the C15 theorems (HMAC digests of 20 bytes, `2 ≤ log2 s`). -/
+theorem SSE1.placement_is_prp_image (raw : RawCfg) (cfg : SSE1Cfg) (hcfg : SSE1.cfgBuild raw = .ok cfg) (lv : Leaves)
+    (hl : LeafLaws lv) (h2 : 2 ≤ cfg.log2s) (hl8 : 2 ≤ (cfg.l * 8).toNat) (K1 K2 K3 K4 : Bytes)
+    (pre : DB) (w : Bytes) (ids : List Bytes) (post : DB) (t t' : Tape) (edb : SSE1EDB)
+    (hs : SSE1.setup cfg lv [K1, K2, K3, K4] (pre ++ (w, ids) :: post) t = .ok (edb, t')) (hk : SSE1.KeysGood cfg t)
+    (hidl : ∀ p ∈ pre ++ (w, ids) :: post, ∀ x ∈ p.2, x.length = cfg.idSize.toNat)
+    (hkeys : ((pre ++ (w, ids) :: post).map (·.1)).Nodup) (hvalid : ∀ p ∈ pre ++ (w, ids) :: post, NoLeadingNul p.1) :
+    ∃ k0, k0.length = cfg.k.toNat ∧ SSE1.ListAt cfg lv edb.A K1 (1 + DB.total pre) k0 ids := by
+  obtain ⟨hlb, hplain⟩ := SSE1.cfgBuild_ok cfg raw hcfg
+  exact SSE1.setup_at cfg lv (fun key iv msg c hiv he => ske_dec_enc lv hl cfg.ske1 hplain key iv msg c hiv he) hlb
+    K1 K2 K3 K4 pre w ids post t t' edb hs
+    (SSE1.psiInj_of_leaves cfg lv hl.hmac_len h2 K1 _) (SSE1.psiLen_of_leaves cfg lv hl.hmac_len h2 K1) hk hidl hkeys
+    (SSE1.gammaInj_of_leaves cfg lv hl.hmac_len hl8 K3 _ hvalid)
 
 /-- non-vacuity of "moves": two samples whose tails differ name different slot sets -/
 example : (3 : Nat) ∈ [1, 2, 3].drop (3 - 1) ∧ (3 : Nat) ∉ [3, 1, 2].drop (3 - 1) := by decide
